@@ -103,6 +103,10 @@ class BruteSolver(IncrementalTrackingSolver):
         for b in bps:
             syms |= reffv(b)
         syms = sorted(syms, key=repr)
+        if any(n == "the solver process dies" for (n, _) in syms):
+            # what a text-interface solver raises when the process answers nonsense / dies at check-sat
+            from pysmt.exceptions import UnknownSolverAnswerError
+            raise UnknownSolverAnswerError("Solver returned: ''")
         doms = [self._domain(t) for (_, t) in syms]
         if self.reverse:
             doms = [list(reversed(d)) for d in doms]
